@@ -340,3 +340,69 @@ def has_valid(spec, rng, limit=2500):
         return None if any(st == U for st, *_ in allc) else False
     got = sample(spec, rng, tries=120, want=1)
     return True if any(st == V for st, *_ in got) else None
+
+
+def objective_value(spec, c: Cand, sv=None):
+    """value of the (weighted sum of the) objective(s) of a spec on a generated candidate,
+    from the documented definitions only; None when some part is unspecified"""
+    sv = sv or SpecView(spec)
+    total = 0
+    Tk = c.tasks
+    several = len(spec.get("objectives", [])) > 1
+    for o in spec.get("objectives", []):
+        k = o["kind"]
+        # (a single objective is optimised as it is; weights only enter the sum of several)
+        w = o.get("weight", 1) if several and k in ("MaximizeIndicator", "MinimizeIndicator") else 1
+        ids = o.get("tasks") or list(sv.task)
+        if k == "MinimizeMakespan":
+            ends = [t.e for t in Tk.values() if t.x]
+            if not ends or any(not t.x for t in Tk.values()):
+                return None  # the makespan of a schedule with unscheduled tasks is not documented
+            v = max(ends)
+        elif k == "MinimizeFlowtime":
+            v = sum(Tk[i].e for i in ids if Tk[i].x)
+        elif k == "Priorities":
+            v = sum(Tk[i].e * sv.task[i].get("priority", 1) for i in sv.task if Tk[i].x)
+        elif k == "TasksStartEarliest":
+            v = sum(Tk[i].s * sv.task[i].get("priority", 1) for i in sv.task if Tk[i].x)
+        elif k in ("TasksStartLatest", "MinimizeGreatestStartTime"):
+            if any(not Tk[i].x for i in ids):
+                return None
+            v = min(Tk[i].s for i in ids) if k == "TasksStartLatest" else max(Tk[i].s for i in ids)
+        elif k in ("MaximizeIndicator", "MinimizeIndicator"):
+            ispec = sv.indicator[o["indicator"]]
+            val, tol, _why = sem.indicator_value(ispec, sv, c)
+            if val is None or tol:
+                return None
+            v = val
+        else:
+            return None
+        total += w * v
+    return total
+
+
+def reference_optimum(spec, limit=3000):
+    """(optimum, n_valid) over the exhaustively enumerated decision space, or None when the
+    space is too large / some candidate is unspecified / an objective is outside the documented subset"""
+    if not spec.get("objectives") or spec.get("horizon") is None or spec["horizon"] > 9:
+        return None
+    allc = enumerate_all(spec, limit=limit)
+    if allc is None:
+        return None
+    from sim.gen import objective_direction
+    direction = objective_direction(spec["objectives"][0]["kind"])
+    sv = SpecView(spec)
+    best = None
+    n = 0
+    for st, c, _sels, _dyn in allc:
+        if st == U:
+            return None
+        if st != V:
+            continue
+        v = objective_value(spec, c, sv)
+        if v is None:
+            return None
+        n += 1
+        if best is None or (v < best if direction == "min" else v > best):
+            best = v
+    return best, n
